@@ -314,6 +314,19 @@ impl Reader {
 					)));
 				}
 
+				// The record is checksummed like any other: a damaged header that happens
+				// to carry this type (e.g. Full with one bit flipped), or a damaged type
+				// byte inside it, must be reported instead of silently dropping a record or
+				// switching the decoding of every following record.
+				let record_data =
+					&self.buffer[self.buffer_offset..self.buffer_offset + length as usize];
+				if calculate_crc32(&[type_byte], record_data) != crc {
+					return Err(Error::IO(IOError::new(
+						io::ErrorKind::Other,
+						"checksum mismatch in compression type record",
+					)));
+				}
+
 				// Parse and store compression type
 				if length > 0 {
 					let compression_byte = self.buffer[self.buffer_offset];
